@@ -484,9 +484,11 @@ def probes_c03(ci, rng, nrandom):
                         for bs in (0, 512, 4096):
                             for ex in (None, 7):
                                 for data in (["n"], ["b", [1, 2, 3]]):
-                                    raw = {"data": data, "extra_tl": ["n"] if ex is None else ["i", ex]}
-                                    out.append(mk(dict(t_length=tl, byte_block=bb, t_type=tt, t_dir=d, blocksize=bs,
-                                                       fetures=3, count=5, protocal=4, command=0xEC), raw))
+                                    # COUNT / FEATURES 0 announce no data at all (the SAT length is the unsigned number in the field)
+                                    for cnt, ft in ((5, 3), (0, 3), (5, 0), (256, 0)):
+                                        raw = {"data": data, "extra_tl": ["n"] if ex is None else ["i", ex]}
+                                        out.append(mk(dict(t_length=tl, byte_block=bb, t_type=tt, t_dir=d, blocksize=bs,
+                                                           fetures=ft, count=cnt, protocal=4, command=0xEC), raw))
         return out
     grid = {}
     for p in P:
